@@ -8,8 +8,9 @@ CONSTANTS
  Dump = FALSE
  SkipFlag = TRUE
  CheckC20 = TRUE
+ EmptyBlockFlushes = TRUE
  WalkerCapturesNext = TRUE
 SPECIFICATION MSpec
-INVARIANTS Inv_C20_SkipEqualsDelete Inv_C20_NoSkipEqualsNeutral
+INVARIANTS Inv_C20_SkipEqualsDeleteUnrestricted Inv_C20_NoSkipEqualsNeutral
 CONSTRAINT MDump
 CHECK_DEADLOCK FALSE
